@@ -8,9 +8,11 @@ Ties (both evaluated inside Coq by vm_compute against coq/theories/Limits.v):
     of the exported slices (brought back to arrival order) and the number of input metadata events that reach the
     output are compared with Limits.e2e_val evaluated on the stream the real MultifileIngest delivers.
 Oracle (independent brute force statement of the property, Python): position rule among in-window slices in arrival
-order, metadata never counted nor dropped, filter = some attr:regex resolves through dicts to a non-dict leaf whose
-str matches (re.search), everything else kept; monotone in count; monotone in the window when the count bound is not
-binding under the wider window.
+order, metadata never counted nor dropped, filter = for some entry attr:regex (split at the entry's FIRST colon, the
+regex may contain colons) the event has the named attribute (every path component is a key of the dict reached so
+far; nothing lies below a string or a number), its value is not a dict and the regex finds a match in its str();
+everything else kept - for every event and every filter string, no exception; monotone in count; monotone in the
+window when the count bound is not binding under the wider window.
 """
 import contextlib
 import copy
@@ -28,7 +30,8 @@ from common import coqrun, enc
 ID = "C17"
 PROP_FILE = "props/C17.v"
 THEOREMS = ["C17_counter_invariant", "C17_position_rule", "C17_metadata_never_dropped", "C17_metadata_transparent",
-            "C17_phase1_decomposition", "C17_filter_spec", "C17_every_entry_counts", "C17_filter_keeps_others",
+            "C17_phase1_decomposition", "C17_filter_spec", "C17_every_entry_counts", "C17_no_other_entry",
+            "C17_filter_keeps_others",
             "C17_monotone_count",
             "C17_monotone_window"]
 ALLOWED_AXIOMS = []
@@ -40,19 +43,28 @@ MANIFEST = {
             "position <= skip+count) with position = rank among in-window non-ignored events in arrival order "
             "(C17_position_rule); ignored (metadata) events are returned unchanged and removing them changes no other "
             "verdict (C17_metadata_never_dropped, C17_metadata_transparent); normalize_phase1 = limiter verdict then "
-            "X-only normalise+filter, the counter never depends on the filter (C17_phase1_decomposition); filtered <=> "
-            "some attr:regex pair resolves through dicts to a non-dict leaf whose str matches, for every regex engine "
-            "(C17_filter_spec, C17_filter_keeps_others); monotone in count (C17_monotone_count) and in the window when "
+            "X-only normalise+filter, the counter never depends on the filter (C17_phase1_decomposition); for EVERY event "
+            "and EVERY filter list (no domain hypothesis - the model of event_filtered is a total boolean function) filtered "
+            "<=> for some attr:regex pair the event has the named attribute (every component of the dotted path is a key of "
+            "the dict reached so far; nothing resolves below a string or a number), its value is not a dict and the regex "
+            "finds a match in its str(), for every regex engine and every str() (C17_filter_spec, C17_filter_keeps_others); "
+            "the pairs in force are exactly the comma separated entries that contain a colon, split at their FIRST colon - "
+            "the regex may contain colons, repeated attributes all count (C17_every_entry_counts, C17_no_other_entry); "
+            "monotone in count (C17_monotone_count) and in the window when "
             "the count bound is not binding under the wider window (C17_monotone_window; a vm_compute witness shows the "
             "binding case is genuinely non-monotone). The model is tied to the code by two correspondence runs "
             "(direct drive of normalize_phase1; Acelyzer end to end) and an independent Python oracle.",
     "note": "Trusted: Coq kernel + vm_compute; hand-written model Limits.v tied by differential testing only; Python "
             "re.search is a Section variable in the theorems and a derivative matcher over generated syntax trees in "
-            "the tie (harness regex parser trusted); int(s,0) modelled for decimal/0x literals only; str() of float/list "
-            "leaves and non-dict args are explicit 'Unmodelled' outcomes never generated in the tie; C05's "
-            "tsx_32bit_local_correction is projected away. Quirk kept faithfully, outside the theorem's "
-            "through_dicts hypothesis: an attribute path that continues below a string leaf is applied to that leaf "
-            "(Example C17_partial_path_quirk). Print Assumptions: closed under the global context.",
+            "the tie (harness regex parser trusted); Python str() of the attribute value is a Section variable in the "
+            "theorems and the table str/int/bool/None in the tie (a filter path ending at a float or list value gives the "
+            "explicit outcome UnmodelledStr and is never generated in the tie); int(s,0) modelled for decimal/0x literals "
+            "only; non-dict args is an explicit 'Unmodelled' outcome never generated in the tie; C05's "
+            "tsx_32bit_local_correction is projected away. After /repo fixes C17c (entry split at its first colon) and C17d "
+            "(a path that leaves the event's dicts names a missing attribute) the former through_dicts/filter_dom hypothesis "
+            "and the two-parts hypothesis are gone: regexes with colons and paths below scalars are ordinary inputs of the "
+            "tie, the oracle and the theorems (Examples C17_nonvacuous_filter, C17_path_below_scalar_never_matches). "
+            "Print Assumptions: closed under the global context.",
     "technique": "Coq proof (induction over the stream with a counter invariant) + vm_compute correspondence against the "
                  "real normalize_phase1 and the real CLI object + brute-force oracle",
     "design_ref": "DESIGN.md section 4/C17, section 6 F5",
@@ -60,11 +72,13 @@ MANIFEST = {
 TRUSTED = [
     "modelled, not verified: Python re (Section variable re_search in the theorems; in the tie a Brzozowski-derivative "
     "matcher over the syntax tree that harness/props/c17.py parses from the generated pattern string: literals "
-    "[A-Za-z0-9_ ], '.', '\\d', (..|..), '*', outer ^ and $)",
+    "[A-Za-z0-9_ :], '.', '\\d', (..|..), (?:..|..), '*', outer ^ and $)",
     "int(s, 0) is modelled for decimal literals without leading zeros, all-zero strings and 0x/0X literals; signs, blanks, "
     "underscores, 0o/0b are valid Python but never generated",
-    "str() is modelled for str/int/bool/None leaves; float and list leaves and a non-dict 'args' give the explicit "
-    "outcome Unmodelled and are not generated in the tie (the oracle, being Python, does cover float/list leaves)",
+    "modelled, not verified: Python str() of the value a filter path ends at (Section variable py_str in the theorems; in "
+    "the tie the table for str/int/bool/None values; a path ending at a float or list value gives the explicit outcome "
+    "UnmodelledStr and is not generated in the tie - the oracle, being Python, does cover such values); a non-dict 'args' "
+    "gives the explicit outcome Unmodelled and is not generated",
     "tsx_32bit_local_correction (C05) runs in the tie on events with a complete, parseable TS1..TS5 set; its effect on "
     "TS1..TS5/TSxOF is projected away on both sides",
     "end-to-end tie: the arrival stream given to the model is produced by the real MultifileIngest on the same file "
@@ -74,8 +88,8 @@ ASSUMPTIONS = [
     "the limiter's counter starts at 0 (one NormalizationContext per run, as register_processing_functions builds it)",
     "event types are one-character strings; 'slice' = event whose type is not in no_count_types (default 'M'): with "
     "counter ('C') or instant events in the input these are counted like slices, exactly as documented for --event_limit",
-    "filter attribute paths resolve through dicts (C17_filter_spec hypothesis through_dicts); a path continuing below a "
-    "string/number leaf is outside the claimed domain (faithfully modelled and tied, see C17_partial_path_quirk)",
+    "a filter entry is <attribute>:<regex> with the attribute ending at the entry's first colon; entries are separated by "
+    "commas (a regex cannot contain a comma); an entry without a colon is not a pair and is ignored (the code warns)",
     "window monotonicity is claimed only when the total number of in-window slices under the wider window does not exceed "
     "skip+count; otherwise it contradicts the position rule (C17_window_not_monotone_when_binding)",
     "times on the exact grid (multiples of 2^-10 below 2^43) so that ts+dur is exact in binary64",
@@ -94,7 +108,7 @@ class RxError(Exception):
     pass
 
 
-LITERAL = set("ABCDEFGHIJKLMNOPQRSTUVWXYZabcdefghijklmnopqrstuvwxyz0123456789_ ")
+LITERAL = set("ABCDEFGHIJKLMNOPQRSTUVWXYZabcdefghijklmnopqrstuvwxyz0123456789_ :")      # ':' is an ordinary character
 
 
 def rx_parse(p):
@@ -151,8 +165,8 @@ def rx_parse(p):
         if p.startswith("\\d", pos):
             pos += 2
             return ("digit",)
-        if c == "(" and not p.startswith("(?", pos):
-            pos += 1
+        if c == "(" and (p.startswith("(?:", pos) or not p.startswith("(?", pos)):
+            pos += 3 if p.startswith("(?:", pos) else 1          # (?:...) groups like (...): nothing here refers to groups
             a = alt(1)
             if pos >= len(p) or p[pos] != ")":
                 raise RxError("unbalanced")
@@ -192,8 +206,11 @@ def filter_entries(filterstr):
         return []
     out = []
     for f in filterstr.split(","):
-        if f.count(":") == 1:
-            k, r = f.split(":")
+        # <attribute>:<regex> - the attribute ends at the FIRST colon, the regex may contain colons ("name:aten::add");
+        # an entry without any colon is not a pair and is ignored (until /repo fix "C17c" an entry with two or more colons
+        # was discarded whole)
+        if ":" in f:
+            k, r = f.split(":", 1)
             out.append((k, r))
     return out
 
@@ -417,16 +434,16 @@ def o_view(e):
 
 
 def o_filtered(view, filterstr):
-    """True/False, or None when some path leaves the claimed domain (continues below a non-dict node)"""
+    """True/False for every view and every filter string"""
     # the property (and the CLI help): "dropped iff ONE OF the attribute:regex pairs matches" - every entry counts, also
     # two entries for the same attribute (until /repo fix "C17b" a later entry silently replaced an earlier one)
     hit = False
     for k, r in filter_entries(filterstr):
         node, ok = view, True
         for part in k.split("."):
-            if not isinstance(node, dict):
-                return None
-            if part not in node:
+            # a path that continues below a value that is not a dict names an attribute the event does not have: no match
+            # (until /repo fix "C17d" the walk stopped there and matched the value reached so far, or raised TypeError)
+            if not isinstance(node, dict) or part not in node:
                 ok = False
                 break
             node = node[part]
@@ -447,8 +464,7 @@ def o_expected(events, tags, cfg, filterstr):
         elif e["ph"] != "X":
             exp.append("keep")
         else:
-            f = o_filtered(o_view(e), filterstr)
-            exp.append(None if f is None else ("drop" if f else "keep"))
+            exp.append("drop" if o_filtered(o_view(e), filterstr) else "keep")
     return exp
 
 
@@ -541,21 +557,32 @@ def check_e2e(case, work, res=None):
 
 # ------------------------------------------------------------------ generators
 NAMES = ["alpha Receive", "RDMA write RDMA", "Compute of foo", "beta Cmpt Prep", "ReceiveReceive x", "gamma DmaI",
-         "RDMAReceive", "delta T1", "XYZ", "aXYZ", "host 31 loop", "Recv Rdma done", "RDM", "eps DmaO", "RRDMA A"]
+         "RDMAReceive", "delta T1", "XYZ", "aXYZ", "host 31 loop", "Recv Rdma done", "RDM", "eps DmaO", "RRDMA A",
+         "aten::add", "aten::add_ T1", "host:31 loop"]
 E2E_NAMES = [n for n in NAMES if "Cmpt Prep" not in n]
-TYPES = ["T0", "T1", "XYZ", "aXYZ", "T10", ""]
+TYPES = ["T0", "T1", "XYZ", "aXYZ", "T10", "", "T1:x", "a:b"]
+E2E_TYPES = [t for t in TYPES if t]
 WORDS = ["Recv", "Rdma", "RDMA", "Receive", "T1", "T0", "XYZ", "alpha", "31", "1f", "True", "None", "5", "v1",
-         "Cmpt Prep", "c17m", "foo", "X", "128", "26", "0", "a", "T", "done", "Compute of "]
+         "Cmpt Prep", "c17m", "foo", "X", "128", "26", "0", "a", "T", "done", "Compute of ", "aten::add", ":", "T1:x"]
+# regexes with colons inside (the attribute of an entry ends at the entry's FIRST colon); several of them also match
+# subjects without any colon
+COLON_RX = ["aten::add", "^aten::", "::", ":", "a:b", "^T1:x$", "(?:Recv|XYZ)", "^(?:T1|T0)$", "aten:*:add", "T1:.", ":*T1",
+            "(?:a|b):(?:b|c)", "^(?:R|r)(?:ecv|dma)", "host:\\d\\d", "^:*alpha", ":*", "^.*:.*$", "(::|XYZ)$", "b:c"]
 PATHS = ["name", "name", "args.Type", "args.Type", "args.uid", "args.nested.k", "args.nested.deep.z", "args.missing",
          "zzz", "pid", "tid", "ph", "args.flag", "args.none", "cat", "args", "args.nested", "attr.Type", "args.Power",
          "args.bytes", "args.Bytes", "args.TS1", "args.jobhash", "args.nested.missing.k"]
-QUIRK_PATHS = ["args.Type.x", "name.zz", "name.a", "pid.x", "args.flag.y", "args.none.q", "", "args.", ".name",
-               "args.Type.T", "args.uid.0", "name.", "args.lst.a"]     # (str() of a list leaf is not modelled: no args.lst.<absent>)
+# attribute paths that continue below a string / number / bool / None / list value, or have an empty component: they name
+# an attribute no event has (the tie does not model str() of a list: no path ENDS at args.lst)
+BELOW_SCALAR_PATHS = ["args.Type.x", "name.zz", "name.a", "pid.x", "args.flag.y", "args.none.q", "", "args.", ".name",
+                      "args.Type.T", "args.uid.0", "name.", "args.lst.a", "args.Type.T1", "name.alpha", "args.nested.k.v1",
+                      "args.nested.deep.z.5", "tid.0", "args.Power.x", "args.lst.0"]
 
 
 def gen_regex(r):
     w = r.choice(WORDS)
-    k = r.randint(0, 13)
+    k = r.randint(0, 16)
+    if k >= 14:
+        return r.choice(COLON_RX)
     if k == 0:
         return w
     if k == 1:
@@ -586,16 +613,18 @@ def gen_regex(r):
     return "(R|r)(ecv|dma|DMA)"
 
 
-def gen_filter(r, quirk=False):
+def gen_filter(r):
     n = r.choice([0, 0, 1, 1, 1, 2, 2, 3])
     if n == 0:
         return r.choice(["", "", "", " ", "   "])
     ents = []
     for _ in range(n):
-        p = r.choice(QUIRK_PATHS) if quirk and r.random() < 0.5 else r.choice(PATHS)
+        p = r.choice(BELOW_SCALAR_PATHS) if r.random() < 0.25 else r.choice(PATHS)
         ents.append(p + ":" + gen_regex(r))
     if r.random() < 0.15:
-        ents.insert(r.randrange(len(ents) + 1), r.choice(["nocolon", "a:b:c", "", " name:Recv", "name", ":", "name:(?:Recv|XYZ)"]))
+        # entries without a colon are not pairs (skipped); the others are ordinary entries, however odd
+        ents.insert(r.randrange(len(ents) + 1), r.choice(["nocolon", "a:b:c", "", " name:Recv", "name", ":", "name:(?:Recv|XYZ)",
+                                                          " ", "name:", "::", "name::"]))
     if r.random() < 0.1 and ents:
         k = ents[0].split(":")[0]
         ents.append(k + ":" + gen_regex(r))          # repeated key: both entries count
@@ -609,7 +638,7 @@ def gtime(r, lo=-3, hi=40):
     return t
 
 
-def gen_x(r, uid, jh, quirk=False):
+def gen_x(r, uid, jh):
     e = {"ph": "X", "name": r.choice(NAMES), "pid": r.choice([0, 0, 1]), "tid": r.randint(0, 3)}
     x = r.random()
     if x < 0.9:
@@ -649,7 +678,7 @@ def gen_x(r, uid, jh, quirk=False):
             e["dur"] = float(r.randint(1, 9))
     if r.random() < 0.1:
         e["cat"] = r.choice(["kernel", "XYZ"])
-    if quirk and r.random() < 0.3:
+    if r.random() < 0.1:
         a["lst"] = ["a", "b"]
     # where the device data lives: args, attr, or both (attr wins)
     y = r.random()
@@ -685,9 +714,11 @@ def gen_other(r, k):
     return e
 
 
-def gen_quirk(r, uid, jh):
+def gen_malformed(r, uid, jh):
+    """a slice that is malformed as an EVENT (missing / ill-typed ph, ts, dur, name, attr, jobhash): tie only, the oracle
+    has no opinion on it (tag 'malformed')"""
     k = r.randint(0, 9)
-    e = gen_x(r, uid, jh, quirk=True)
+    e = gen_x(r, uid, jh)
     for d in ("args", "attr"):          # C05's correction is not part of this tie: no counters on malformed events
         if isinstance(e.get(d), dict):
             for t in PROJ:
@@ -759,8 +790,8 @@ def gen_direct(r, jh, malformed=False):
     for k in range(n):
         x = r.random()
         if malformed and x < 0.3:
-            events.append(gen_quirk(r, k, jh))
-            tags.append("quirk")
+            events.append(gen_malformed(r, k, jh))
+            tags.append("malformed")
         elif x < (0.5 if malformed else 0.72):
             events.append(gen_x(r, k, jh))
             tags.append("clean")
@@ -775,7 +806,7 @@ def gen_direct(r, jh, malformed=False):
             if e.get("ph") == "X" and isinstance(e.get("args"), dict) and r.random() < 0.3:
                 e["args"]["jobhash"] = 424242          # unknown job: "Not Available"
     cfg = gen_cfg(r, events)
-    flt = gen_filter(r, quirk=malformed)
+    flt = gen_filter(r)
     return {"mode": "direct", "events": events, "tags": tags, "cfg": cfg, "filter": flt, "malformed": malformed}
 
 
@@ -789,7 +820,7 @@ def gen_e2e_events(r):
         dur = float(r.randint(1, 6))
         # (Prep slices are consumed by the prep_queue counter stage: a documented removal, not this property's)
         e = {"ph": "X", "name": r.choice(E2E_NAMES), "pid": 0, "tid": k % 4, "ts": t, "dur": dur}
-        a = {"uid": k, "Type": r.choice(TYPES[:5])}
+        a = {"uid": k, "Type": r.choice(E2E_TYPES)}
         if r.random() < 0.4:
             a["nested"] = {"k": r.choice(["v1", "v2", "Recv"]), "deep": {"z": r.choice([5, 31, 0])}}
         if r.random() < 0.3:
@@ -955,7 +986,7 @@ def run(ctx):
     jh, jn = job_direct()
     work = tempfile.mkdtemp(prefix="c17_", dir=ctx.work)
     dist = {"direct_events_per_stream": {}, "event_types": {}, "limit_keys": {}, "filter_entries": {},
-            "boundary_coincidences": 0, "boundary_grid_cases": 0, "malformed_streams": 0, "impl_exceptions": {}, "e2e_scenarios": 0,
+            "filter_regexes_with_colon": 0, "filter_paths_below_scalar": 0, "boundary_coincidences": 0, "boundary_grid_cases": 0, "malformed_streams": 0, "impl_exceptions": {}, "e2e_scenarios": 0,
             "e2e_runs": 0, "mono_pairs": {"count": 0, "window": 0, "window_binding_skipped": 0}}
     oracle_failures, seen = [], set()
     nontriv = 0
@@ -992,8 +1023,11 @@ def run(ctx):
                 dist["event_types"][p] = dist["event_types"].get(p, 0) + 1
             for k in c["cfg"]:
                 dist["limit_keys"][k] = dist["limit_keys"].get(k, 0) + 1
-            nf = len(filter_entries(c["filter"]))
+            fe = filter_entries(c["filter"])
+            nf = len(fe)
             dist["filter_entries"][nf] = dist["filter_entries"].get(nf, 0) + 1
+            dist["filter_regexes_with_colon"] += sum(1 for _, rx in fe if ":" in rx)
+            dist["filter_paths_below_scalar"] += sum(1 for k, _ in fe if k in BELOW_SCALAR_PATHS)
             for o in outs:
                 if isinstance(o, enc.Err):
                     dist["impl_exceptions"][o.tag] = dist["impl_exceptions"].get(o.tag, 0) + 1
@@ -1103,8 +1137,10 @@ def run(ctx):
         "rule": "distinct (stream, limit tuple, filter) cases in which the implementation kept >= 1 and dropped >= 1 slice "
                 "(direct: returned [event] / []; end to end: 0 < exported uids < input uids). Direct streams: 1..12 events "
                 "(X with args/attr/both, metadata with and without ts, counter/instant events), limit bounds drawn from the "
-                "event starts/ends and their 2^-10 neighbours, 0..3 filter entries over name/args.* paths plus malformed "
-                "entries; separate malformed stream (missing/ill-typed ph, ts, dur, name, attr, jobhash; quirk paths). "
+                "event starts/ends and their 2^-10 neighbours, 0..3 filter entries over name/args.* paths - a quarter of them "
+                "continuing below a string/number/bool/None/list value or with an empty component, a fifth of the regexes with "
+                "colons inside - plus entries without a colon; separate stream with malformed events (missing/ill-typed ph, "
+                "ts, dur, name, attr, jobhash). "
                 f"Exhaustive sub-family: all {len(grid)} (ts_start, ts_end[, skip, count]) tuples over the starts/ends of a fixed "
                 "5-event stream and their 2^-10 neighbours (every boundary coincidence). "
                 f"Same rule restricted to the limiter, evaluated inside Coq over all direct cases incl. duplicates: {extras.get('nt')}",
